@@ -11,6 +11,8 @@ mod sim;
 mod vbus;
 
 mod eng_codec;
+mod eng_gsd;
+mod eng_prm;
 mod eng_rx;
 
 use util::*;
@@ -137,6 +139,8 @@ fn main() {
         "C09" => eng_codec::c09(&mut ctx),
         "C10" => eng_codec::c10(&mut ctx),
         "C16" => eng_rx::c16(&mut ctx),
+        "C19" => eng_gsd::c19(&mut ctx),
+        "C20" => eng_prm::c20(&mut ctx),
         _ => {
             eprintln!("unknown property {}", prop);
             std::process::exit(2);
